@@ -898,6 +898,11 @@ func c07Refused(run *vfRun, m *c07Mon, p c07Params, dir string, ns []*c13Node, t
 		m.mu.Lock()
 		m.tr = tr
 		m.leavers[x.idx] = true // x keeps its previous-epoch share: its partials must not count after the switch
+		for _, n := range ns {
+			if n != x {
+				m.newGroup[n.idx] = true
+			}
+		}
 		m.mu.Unlock()
 		// wait until x's delayed notification has been processed
 		for x.clock.Now().Unix() <= g2.TransitionTime+3 {
